@@ -175,18 +175,18 @@ Section Props.
   Qed.
 
   (* the handler's part *)
-  Lemma after_handler_ok : forall i (early : bool) rf c o p, conn ->
+  Lemma after_handler_ok : forall rq i (early : bool) rf c o p, conn ->
     (early = true -> ty = NR_CON) ->
     out_ok ((if early then [dp_eack req] else []) ++ EvH i ::
             (if dp_bad_class c then []
              else if c =? 168 then [EvSkip]
-             else dp_finish cfg mc (sp_req' cfg req) rf early false
+             else dp_finish cfg mc rq rf early false
                     (mkMsg (dp_resp_type req) c (m_mid req) (m_token req) o p))).
   Proof.
-    intros i early rf c o p Hc He.
+    intros rq i early rf c o p Hc He.
     set (tail := if dp_bad_class c then []
                  else if c =? 168 then [EvSkip]
-                 else dp_finish cfg mc (sp_req' cfg req) rf early false
+                 else dp_finish cfg mc rq rf early false
                         (mkMsg (dp_resp_type req) c (m_mid req) (m_token req) o p)).
     assert (Hcalls : dp_calls tail = []).
     { unfold tail. destruct (dp_bad_class c); [reflexivity|]. destruct (c =? 168); [reflexivity|].
@@ -206,7 +206,7 @@ Section Props.
                      exists o', dp_txs tail = [mkMsg NR_CON c (m_mid req) (m_token req) o' p]).
         { unfold tail. destruct (dp_bad_class c); [left; reflexivity|].
           destruct (c =? 168); [left; reflexivity|].
-          pose proof (finish_cases cfg mc (sp_req' cfg req) rf true false
+          pose proof (finish_cases cfg mc rq rf true false
                         (mkMsg (dp_resp_type req) c (m_mid req) (m_token req) o p)) as H.
           cbn [andb m_type m_mid m_code m_token m_payload] in H. cbn zeta in H.
           rewrite Hrt in H. change (NR_ACK =? NR_ACK) with true in H. cbv iota in H.
@@ -225,22 +225,22 @@ Section Props.
       + change (dp_txs (EvH i :: tail)) with (dp_txs tail).
         unfold tail. destruct (dp_bad_class c); [left; reflexivity|].
         destruct (c =? 168); [left; reflexivity|].
-        destruct (finish_ok (sp_req' cfg req) rf false c o p Hc) as [_ Hs]. exact Hs.
+        destruct (finish_ok rq rf false c o p Hc) as [_ Hs]. exact Hs.
   Qed.
 
-  Lemma invoke_ok : conn -> out_ok (sp_handler_out cfg h mc req).
+  Lemma invoke_ok : forall o, conn ->
+    out_ok (dp_invoke cfg h mc (sp_req_with req o) (sp_target cfg req)).
   Proof.
-    intros Hc. unfold sp_handler_out, dp_invoke.
-    change (dp_resp_type (sp_req' cfg req)) with (dp_resp_type req).
-    change (m_mid (sp_req' cfg req)) with (m_mid req).
-    change (m_token (sp_req' cfg req)) with (m_token req).
-    change (m_type (sp_req' cfg req)) with ty.
-    destruct (sp_target cfg req) eqn:Et; cbv beta iota zeta.
-    - apply (after_handler_ok _ false); [exact Hc|discriminate].
-    - apply (after_handler_ok _ (ty =? NR_CON)); [exact Hc|]. intros E. unfold NR_CON in *. lia.
-    - apply (after_handler_ok _ false); [exact Hc|discriminate].
-    - destruct (dp_has DP_BLOCK2 (m_opts (sp_req' cfg req))); [apply nil_ok_skip|apply finish_ok; exact Hc].
-    - apply (after_handler_ok _ false); [exact Hc|discriminate].
+    intros o Hc. unfold dp_invoke.
+    change (dp_resp_type (sp_req_with req o)) with (dp_resp_type req).
+    change (m_mid (sp_req_with req o)) with (m_mid req).
+    change (m_token (sp_req_with req o)) with (m_token req).
+    change (m_type (sp_req_with req o)) with ty.
+    destruct (sp_target cfg req) eqn:Et; cbv beta iota zeta;
+      try (destruct (dp_observe _ _); try apply nil_ok_skip).
+    all: try (apply (after_handler_ok _ _ false); [exact Hc|discriminate]).
+    all: try (apply (after_handler_ok _ _ (ty =? NR_CON)); [exact Hc|]; intros E; unfold NR_CON in *; lia).
+    destruct (dp_has DP_BLOCK2 (m_opts (sp_req_with req o))); [apply nil_ok_skip|apply finish_ok; exact Hc].
   Qed.
 
   (* ---- every allowed output is well-formed ---- *)
@@ -277,7 +277,8 @@ Section Props.
         * destruct H as [<- | []]. apply fail_ok. exact Hc.
         * destruct (c_prx cfg) as [[[? ?] ?]|]; [|contradiction].
           destruct H as [<- | []]. apply fail_ok. exact Hc.
-    - destruct (sp_blocked cfg mc req); [contradiction|]. destruct H as [<- | []].
+    - destruct (sp_blocked cfg mc req); [contradiction|].
+      unfold sp_handler_outs in H. apply in_map_iff in H as [o [<- _]].
       apply invoke_ok. exact Hc.
   Qed.
 
@@ -318,7 +319,7 @@ Section Props.
   Proof. unfold dp_is_request, dp_is_response in *. lia. Qed.
 
   Theorem unblocked_runs_handler : sp_blocked cfg mc req = false ->
-    forall out, dp_allowed cfg h mc req out <-> out = sp_handler_out cfg h mc req.
+    forall out, dp_allowed cfg h mc req out <-> In out (sp_handler_outs cfg h mc req).
   Proof.
     intros Hb out. unfold dp_allowed, dp_allowed_outs. fold ty code.
     rewrite conn_b, Hcls, not_resp, Hreq. cbn [negb].
@@ -337,8 +338,8 @@ Section Props.
       repeat (apply orb_false_iff in Herr; destruct Herr as [?H Herr]).
       cbn [flat_map]. repeat match goal with H : sp_applies _ _ _ _ = false |- _ => rewrite H; clear H end.
       reflexivity. }
-    rewrite Hfm. unfold sp_blocked. fold ty. rewrite Hos, Hlt, Hmc, Herr. cbn [app orb In].
-    split; [intros [<- | []]; reflexivity|intros ->; left; reflexivity].
+    rewrite Hfm. unfold sp_blocked. fold ty. rewrite Hos, Hlt, Hmc, Herr. cbn [app orb].
+    tauto.
   Qed.
 
   Lemma fail_calls : forall rf c, dp_calls (dp_fail cfg mc req rf c) = [].
@@ -499,11 +500,12 @@ Qed.
    request's method, with the request above and its reconstructed query *)
 Theorem handler_call : forall cfg h mc req,
   sp_target cfg req <> TWellKnown ->
+  dp_observe (sp_target cfg req) (sp_req' cfg req) <> ObsBlocked ->
   dp_calls (sp_handler_out cfg h mc req) =
   [mkHreq (dp_target_rid (sp_target cfg req)) (m_code req) (sp_req' cfg req)
           (dp_query cfg (m_opts req))].
 Proof.
-  intros cfg h mc req Hwk. unfold sp_handler_out, dp_invoke.
+  intros cfg h mc req Hwk Hob. unfold sp_handler_out, dp_invoke.
   rewrite <- (dp_values_query_adj cfg req).
   change (m_opts (sp_req' cfg req)) with (sp_adjusted cfg req).
   change (m_code (sp_req' cfg req)) with (m_code req).
@@ -520,12 +522,9 @@ Proof.
       fold (dp_calls (dp_finish cfg mc (sp_req' cfg req) rf false false
                         (mkMsg (dp_resp_type (sp_req' cfg req)) c (m_mid (sp_req' cfg req)) (m_token (sp_req' cfg req)) o p)));
       rewrite finish_calls; reflexivity. }
-  destruct (sp_target cfg req) eqn:Et.
-  - apply (Htail _ false).
-  - apply (Htail _ (m_type (sp_req' cfg req) =? NR_CON)).
-  - apply (Htail _ false).
-  - congruence.
-  - apply (Htail _ false).
+  destruct (sp_target cfg req) eqn:Et; try congruence;
+    destruct (dp_observe _ (sp_req' cfg req)) eqn:Eo; try congruence;
+    first [apply (Htail _ false) | apply (Htail _ (m_type (sp_req' cfg req) =? NR_CON))].
 Qed.
 
 (* the built-in /.well-known/core resource: no application handler, a 2.05 with
@@ -546,6 +545,8 @@ Qed.
 Theorem handler_out_is : forall cfg h mc req,
   (m_type req = NR_CON \/ m_type req = NR_NON) ->
   (match sp_target cfg req with TRes _ | TUnknown _ _ => True | _ => False end) ->
+  let obs := dp_observe (sp_target cfg req) (sp_req' cfg req) in
+  obs <> ObsBlocked ->
   let i := mkHreq (dp_target_rid (sp_target cfg req)) (m_code req) (sp_req' cfg req)
                   (dp_query cfg (m_opts req)) in
   let r := h i in
@@ -559,7 +560,8 @@ Theorem handler_out_is : forall cfg h mc req,
   | NrEmptyAck => [EvTx false (dp_empty NR_ACK (m_mid req))]
   | NrSendAsIs =>
       [EvTx false (mkMsg (dp_resp_type req) (hr_code r) (m_mid req) (m_token req)
-                         (dp_sent_opts false (hr_code r) true (hr_opts r)) (hr_payload r))]
+                         (dp_sent_opts false (hr_code r) true (dp_resp_opts obs (hr_code r) (hr_opts r)))
+                         (hr_payload r))]
   end.
 Proof.
   intros cfg h mc req Hty Ht. cbv zeta.
@@ -575,7 +577,9 @@ Proof.
   change (dp_resp_type (sp_req' cfg req)) with (dp_resp_type req).
   change (m_mid (sp_req' cfg req)) with (m_mid req).
   change (m_token (sp_req' cfg req)) with (m_token req).
-  destruct (sp_target cfg req) eqn:Et; try contradiction; cbv beta iota zeta; cbn [app];
+  destruct (sp_target cfg req) eqn:Et; try contradiction;
+    destruct (dp_observe _ (sp_req' cfg req)) eqn:Eo; intros Hob; try congruence;
+    cbv beta iota zeta; cbn [app];
     match goal with |- context [h ?x] => set (i := x); set (hr := h i) end;
     intros Hstd H168;
     (assert (Hbc : dp_bad_class (hr_code hr) = false)
@@ -698,7 +702,7 @@ Qed.
 (* ---- non-vacuity: concrete servers and requests ---- *)
 Definition ex_handler (_ : dp_hreq) : dp_hresp := mkHresp 69 [(12, [0])] [104; 105].
 Definition ex_cfg : dp_cfg :=
-  mkCfg true [] [mkRes [97] 1 8; mkRes [98] 3 0] (Some (4, 0)) None (fun _ => [60; 47; 97; 62])
+  mkCfg true [] [mkRes [97] 1 8 true; mkRes [98] 3 0 false] (Some (4, 0)) None (fun _ => [60; 47; 97; 62])
         dp_unescaped_path dp_unescaped_query.
 Definition ex_get (ty : Z) (path : bytes) (extra : list opt) : msg :=
   mkMsg ty 1 4660 [170; 187] ((11, path) :: extra) [].
@@ -710,12 +714,13 @@ Example ex_handler_runs :
    EvTx false (mkMsg 2 69 4660 [170; 187] [(12, [0])] [104; 105])] /\
   sp_blocked ex_cfg false (ex_get 0 [97] []) = false /\
   dp_in_scope ex_cfg ex_handler (ex_get 0 [97] []) /\
-  dp_allowed_outs ex_cfg ex_handler false (ex_get 0 [97] []) =
-  [dp_serve ex_cfg ex_handler false (ex_get 0 [97] [])].
+  (forall out, dp_allowed ex_cfg ex_handler false (ex_get 0 [97] []) out ->
+               out = dp_serve ex_cfg ex_handler false (ex_get 0 [97] [])).
 Proof.
   split; [vm_compute; reflexivity|]. split; [vm_compute; reflexivity|].
-  split; [split; [discriminate|split; [intros i; vm_compute; discriminate|intros H; vm_compute in H; discriminate]]|].
-  vm_compute. reflexivity.
+  split; [split; [discriminate|split; [intros i; vm_compute; discriminate|split; [intros H; vm_compute in H; discriminate|vm_compute; discriminate]]]|].
+  intros out H. unfold dp_allowed in H. vm_compute in H. vm_compute.
+  repeat (destruct H as [<- | H]; [reflexivity|]). contradiction.
 Qed.
 
 (* the rules of the statement on concrete requests *)
@@ -743,7 +748,7 @@ Example ex_rules :
   dp_serve ex_cfg ex_handler false (mkMsg 0 2 1 [] [(5, []); (11, [98])] []) =
     [EvTx true (mkMsg 2 140 1 [] [] [])] /\
   (* FETCH without Content-Format (a FETCH handler exists on /f) *)
-  dp_serve (mkCfg false [] [mkRes [102] 16 0] None None (fun _ => []) dp_unescaped_path dp_unescaped_query) ex_handler false
+  dp_serve (mkCfg false [] [mkRes [102] 16 0 false] None None (fun _ => []) dp_unescaped_path dp_unescaped_query) ex_handler false
            (mkMsg 0 5 1 [] [(11, [102])] []) = [EvTx true (mkMsg 2 143 1 [] [] [])] /\
   (* proxy option without proxy support *)
   dp_serve ex_cfg ex_handler false (mkMsg 0 1 1 [] [(3, [104]); (11, [97]); (39, [99])] []) =
@@ -893,31 +898,32 @@ Proof.
       * destruct Ha as [<- | []]. exact (Hfail _ _ _ Hin Hrst).
       * destruct (c_prx cfg) as [[[? ?] ?]|]; [|contradiction].
         destruct Ha as [<- | []]. exact (Hfail _ _ _ Hin Hrst).
-  - destruct (sp_blocked cfg true req); [contradiction|]. destruct Ha as [<- | []].
+  - destruct (sp_blocked cfg true req); [contradiction|].
+    unfold sp_handler_outs in Ha. apply in_map_iff in Ha as [ov [<- _]].
     (* the handler's output: only dp_finish and the Empty ACK emit *)
-    unfold sp_handler_out, dp_invoke in Hin.
+    unfold dp_invoke in Hin.
+    set (rq := sp_req_with req ov) in *.
     assert (Htail : forall i (early : bool) rf c o p,
-      In m (dp_txs ((if early then [dp_eack (sp_req' cfg req)] else []) ++ EvH i ::
+      In m (dp_txs ((if early then [dp_eack rq] else []) ++ EvH i ::
               (if dp_bad_class c then [] else if c =? 168 then [EvSkip]
-               else dp_finish cfg true (sp_req' cfg req) rf early false
-                      (mkMsg (dp_resp_type (sp_req' cfg req)) c (m_mid (sp_req' cfg req))
-                             (m_token (sp_req' cfg req)) o p)))) -> False).
+               else dp_finish cfg true rq rf early false
+                      (mkMsg (dp_resp_type rq) c (m_mid rq) (m_token rq) o p)))) -> False).
     { intros i early rf c o p Hm. rewrite txs_app in Hm. apply in_app_or in Hm as [Hm | Hm].
       - destruct early; [|contradiction]. destruct Hm as [<- | []].
         cbn in Hrst. unfold NR_ACK, NR_RST in Hrst. discriminate.
       - change (dp_txs (EvH i :: ?t)) with (dp_txs t) in Hm.
         cbn [dp_txs flat_map app] in Hm.
         destruct (dp_bad_class c); [contradiction|]. destruct (c =? 168); [contradiction|].
-        revert Hm. fold (dp_txs (dp_finish cfg true (sp_req' cfg req) rf early false
-                        (mkMsg (dp_resp_type (sp_req' cfg req)) c (m_mid (sp_req' cfg req)) (m_token (sp_req' cfg req)) o p))).
+        revert Hm. fold (dp_txs (dp_finish cfg true rq rf early false
+                        (mkMsg (dp_resp_type rq) c (m_mid rq) (m_token rq) o p))).
         intros Hm. exact (Hfin3 _ _ _ _ _ _ _ _ _ _ _ Hm Hrst). }
-    destruct (sp_target cfg req).
-    + exact (Htail _ false _ _ _ _ Hin).
-    + exact (Htail _ (m_type (sp_req' cfg req) =? NR_CON) _ _ _ _ Hin).
-    + exact (Htail _ false _ _ _ _ Hin).
-    + destruct (dp_has DP_BLOCK2 (m_opts (sp_req' cfg req))); [cbn in Hin; contradiction|].
-      exact (Hfin3 _ _ _ _ _ _ _ _ _ _ _ Hin Hrst).
-    + exact (Htail _ false _ _ _ _ Hin).
+    destruct (sp_target cfg req);
+      try (destruct (dp_observe _ rq);
+           first [exact (Htail _ false _ _ _ _ Hin)
+                 | exact (Htail _ (m_type rq =? NR_CON) _ _ _ _ Hin)
+                 | (cbn in Hin; contradiction)]).
+    destruct (dp_has DP_BLOCK2 (m_opts rq)); [cbn in Hin; contradiction|].
+    exact (Hfin3 _ _ _ _ _ _ _ _ _ _ _ Hin Hrst).
 Qed.
 
 (* ---- the options echoed in the 4.02 of coap_dispatch(): only options of the request, only
@@ -1018,10 +1024,44 @@ Example mcast_reset_refused :
   dp_allowed ex_cfg ex_handler false req [EvTx false (dp_empty NR_RST 4660)].
 Proof.
   cbv zeta. split; [repeat constructor; cbn; lia|].
-  split; [split; [discriminate|split; [intros i; vm_compute; discriminate|intros H; vm_compute in H; discriminate]]|].
+  split; [split; [discriminate|split; [intros i; vm_compute; discriminate|split; [intros H; vm_compute in H; discriminate|vm_compute; discriminate]]]|].
   split; [|split].
   - unfold dp_allowed. vm_compute. intros H.
     repeat (destruct H as [H | H]; [discriminate H|]). exact H.
   - unfold dp_allowed. vm_compute. auto.
   - unfold dp_allowed. vm_compute. auto.
+Qed.
+
+(* ---- every view of the request's options the relation lets the handler see: same option
+        numbers in the same order, same values except Block2 / Hop-Limit, hence the same
+        reconstructed path and query ---- *)
+Theorem handler_views : forall cfg req o, In o (sp_views cfg req) ->
+  map fst o = map fst (m_opts req) /\
+  (forall n, n <> DP_BLOCK2 -> n <> DP_HOP_LIMIT -> dp_values n o = dp_values n (m_opts req)) /\
+  dp_uri_path cfg o = dp_uri_path cfg (m_opts req) /\ dp_query cfg o = dp_query cfg (m_opts req).
+Proof.
+  intros cfg req o Hin.
+  assert (Hmain : map fst o = map fst (m_opts req) /\
+                  (forall n, n <> DP_BLOCK2 -> n <> DP_HOP_LIMIT ->
+                             dp_values n o = dp_values n (m_opts req))).
+  { assert (Hhop : forall l, map fst (sp_hop_dec l) = map fst l /\
+               (forall n, n <> DP_HOP_LIMIT -> dp_values n (sp_hop_dec l) = dp_values n l)).
+    { intros l. unfold sp_hop_dec. destruct (dp_find DP_HOP_LIMIT l); [|auto].
+      split; [apply dp_update_fst|]. intros n Hn. apply dp_values_update_other. exact Hn. }
+    destruct (handler_sees_request cfg req) as [Ha1 [Ha2 _]].
+    assert (Hfix : map fst (sp_fix_block2 req) = map fst (m_opts req) /\
+               (forall n, n <> DP_BLOCK2 -> dp_values n (sp_fix_block2 req) = dp_values n (m_opts req))).
+    { unfold sp_fix_block2. destruct (dp_is_request (m_code req)); [|auto].
+      destruct (dp_find DP_BLOCK2 (m_opts req)); [|auto]. destruct (dp_block2_fix b); [|auto].
+      split; [apply dp_update_fst|]. intros n Hn. apply dp_values_update_other. exact Hn. }
+    unfold sp_views in Hin. cbn [In] in Hin.
+    destruct Hin as [<- | [<- | [<- | [<- | [<- | []]]]]].
+    - auto.
+    - auto.
+    - destruct Hfix as [H1 H2]. split; [exact H1|]. intros n Hn _. apply H2. exact Hn.
+    - destruct (Hhop (m_opts req)) as [H1 H2]. split; [exact H1|]. intros n _ Hn. apply H2. exact Hn.
+    - destruct (Hhop (sp_fix_block2 req)) as [H1 H2]. destruct Hfix as [H3 H4].
+      split; [rewrite H1; exact H3|]. intros n Hb Hh. rewrite H2 by exact Hh. apply H4. exact Hb. }
+  destruct Hmain as [H1 H2]. split; [exact H1|]. split; [exact H2|].
+  unfold dp_uri_path, dp_query. rewrite !H2 by discriminate. auto.
 Qed.
